@@ -122,15 +122,24 @@ structure InvL (s : St) : Prop where
   retDone : ∀ c ∈ s.sds, c.ret = true → s.sdRetOk = true
   preSeen : ∀ c ∈ s.sds, ∀ id ∈ c.pre, id ∈ s.seen
   called : s.sds ≠ [] → s.sd ≠ .none
+  uniq : (s.sds.map (·.cid)).Nodup
+
+theorem map_cid_setRet (cid : Nat) (sds : List SD) :
+    (sds.map fun c => if c.cid = cid then { c with ret := true } else c).map (·.cid) = sds.map (·.cid) := by
+  simp only [List.map_map]
+  congr 1
+  funext c
+  simp only [Function.comp]
+  split <;> rfl
 
 theorem stepL (s s' : St) (l : Lbl) (h : InvL s) (hs : step s l = some s') : InvL s' := by
-  obtain ⟨h1, h2, h3⟩ := h
+  obtain ⟨h1, h2, h3, h4⟩ := h
   cases l <;> simp only [step] at hs
   case sdReturnLate cid =>
     split at hs
     · rename_i hg
       simp at hs; subst hs
-      refine ⟨fun _ _ _ => hg.1, ?_, ?_⟩
+      refine ⟨fun _ _ _ => hg.1, ?_, ?_, by rw [map_cid_setRet]; exact h4⟩
       · intro c hc
         simp only [List.mem_map] at hc
         obtain ⟨c0, hc0, he⟩ := hc
@@ -142,13 +151,38 @@ theorem stepL (s s' : St) (l : Lbl) (h : InvL s) (hs : step s l = some s') : Inv
         have := hg.2
         simp [he] at this
     · simp at hs
+  case sdCallLate cid =>
+    split at hs
+    · simp at hs
+    · rename_i hg
+      simp at hs; subst hs
+      refine ⟨?_, ?_, fun _ e => hg (Or.inl e), ?_⟩
+      · intro c hc
+        simp only [List.mem_cons] at hc
+        rcases hc with hc | hc
+        · subst hc; simp
+        · exact h1 c hc
+      · intro c hc
+        simp only [List.mem_cons] at hc
+        rcases hc with hc | hc
+        · subst hc; exact fun id hid => hid
+        · exact h2 c hc
+      · simp only [List.map_cons, List.nodup_cons]
+        refine ⟨?_, h4⟩
+        intro hm
+        apply hg
+        right
+        simp only [List.mem_map] at hm
+        obtain ⟨c, hc, he⟩ := hm
+        simp only [List.any_eq_true, decide_eq_true_eq]
+        exact ⟨c, hc, he⟩
   all_goals (
     repeat' (split at hs)
     all_goals (try (simp at hs))
     all_goals (try subst hs)
     all_goals (first
-      | exact ⟨h1, h2, h3⟩
-      | (refine ⟨?_, ?_, ?_⟩ <;> simp_all <;> grind)))
+      | exact ⟨h1, h2, h3, h4⟩
+      | (refine ⟨?_, ?_, ?_, h4⟩ <;> simp_all <;> grind)))
 
 /-! ### The full invariant -/
 structure Inv (s : St) : Prop where
@@ -161,7 +195,7 @@ structure Inv (s : St) : Prop where
   l : InvL s
 
 theorem inv_init (cap maxB : Nat) (blocking : Bool) (hpos : 1 ≤ maxB) : Inv (init cap maxB blocking) := by
-  refine ⟨⟨?_, ?_⟩, ⟨hpos, ?_, ?_, ?_, ?_⟩, ⟨?_, ?_, ?_, ?_, ?_, ?_, ?_, ?_⟩, ⟨?_, ?_⟩, ⟨?_, ?_, ?_, ?_⟩, ⟨?_, ?_, ?_⟩, ⟨?_, ?_, ?_⟩⟩ <;>
+  refine ⟨⟨?_, ?_⟩, ⟨hpos, ?_, ?_, ?_, ?_⟩, ⟨?_, ?_, ?_, ?_, ?_, ?_, ?_, ?_⟩, ⟨?_, ?_⟩, ⟨?_, ?_, ?_, ?_⟩, ⟨?_, ?_, ?_⟩, ⟨?_, ?_, ?_, ?_⟩⟩ <;>
     simp [init, allIds, spansOf, handL] <;> omega
 
 theorem inv_step (s s' : St) (l : Lbl) (h : Inv s) (hs : step s l = some s') : Inv s' :=
